@@ -79,6 +79,24 @@ def instrument(registry, log: Log):
     """Return a registry of wrappers that record what each decoder returned, *before* the engine touches it."""
     state = {"sid": -1}
 
+    class Wrapped:
+        """Callable wrapper that is equal to another wrapper exactly when the wrapped registry entries are equal (a registry may list the
+        same callable twice, or two entries that are == without being identical)."""
+
+        __slots__ = ("fn", "dec")
+
+        def __init__(self, fn, dec):
+            self.fn, self.dec = fn, dec
+
+        def __call__(self, value):
+            return self.fn(value)
+
+        def __eq__(self, other):
+            return isinstance(other, Wrapped) and self.dec == other.dec
+
+        def __hash__(self):
+            return hash(self.dec)
+
     def wrap(ri, dec):
         def wrapped(value):
             if ri == 0:  # decoders are called in registry order for every node searched
@@ -99,7 +117,7 @@ def instrument(registry, log: Log):
                     st.extend(c.children)
             return hits
 
-        return wrapped
+        return Wrapped(wrapped, dec)
 
     return [wrap(i, d) for i, d in enumerate(registry)]
 
@@ -124,3 +142,22 @@ def abs_nodes(tree):
 
     rec(tree, 0)
     return out
+
+
+_POISON = None
+
+
+def result_is_callers(fn, data, hits) -> bool:
+    """The list a decoder returns belongs to the caller: after the caller has appended to it, the same call must give the same result again
+    (a decoder that hands out a shared or remembered list object fails this)."""
+    global _POISON
+    if _POISON is None:
+        _POISON = Node("poison", b"poison", "poison", 0, 0)
+    before = [tup(h) for h in hits]
+    hits.append(_POISON)
+    try:
+        again = fn(data)
+        return again is not hits and all(h is not _POISON for h in again) and [tup(h) for h in again] == before
+    finally:
+        if hits and hits[-1] is _POISON:
+            hits.pop()
